@@ -193,6 +193,10 @@ def finding_key(tr, rej):
         # shape, wrong count, exceptions), depending on the seed: one finding
         # per method and regime instead of one per symptom
         return "%s|%s" % (name, "at-least-two-labels" if len(tr["labeled"]) >= 2 else "fewer-than-two-labels")
+    if (name.startswith("SubSamplingWrapper(") and "exclude_non_subsample=True" in name and not tr["labeled"]
+            and "-rows-" in tr["id"] and why == "Raised:ValueError"):
+        # the cold-start failure recorded under C20: the configuration class, not the wrapped strategy, is the key
+        return "SubSamplingWrapper(exclude_non_subsample=True)|feature-row-candidates,no-label|%s" % why
     return "%s|%s" % (name, why)
 
 
